@@ -509,6 +509,13 @@ class _Missing:
 MISSING = _Missing()
 
 
+_PURE_FOLD = {'enumerate': enumerate, 'zip': zip, 'range': range,
+              'reversed': reversed, 'len': len, 'tuple': tuple, 'list': list,
+              'dict': dict, 'set': set, 'frozenset': frozenset,
+              'sorted': sorted, 'min': min, 'max': max, 'sum': sum,
+              'str': str, 'int': int}
+
+
 def const_value(node, env=None):
     """Fold a constant expression.  Raises AnalysisError if not constant.
     env: callable(name_or_dotted) -> ast expr or python value or None."""
@@ -556,6 +563,22 @@ def const_value(node, env=None):
             st = const_value(sl.step, env) if sl.step else None
             return base[lo:hi:st]
         return base[const_value(sl, env)]
+    if isinstance(node, ast.Call) and isinstance(node.func, ast.Name) and \
+            node.func.id in _PURE_FOLD and not node.keywords and \
+            not any(isinstance(a, ast.Starred) for a in node.args):
+        args = [const_value(a, env) for a in node.args]
+        try:
+            v = _PURE_FOLD[node.func.id](*args)
+        except Exception as err:
+            raise AnalysisError('fold-failure: %s (%s)' % (src(node), err))
+        return list(v) if node.func.id in ('enumerate', 'zip', 'range',
+                                           'reversed') else v
+    if isinstance(node, ast.DictComp) and \
+            not any(g.is_async for g in node.generators):
+        pairs = const_value(ast.ListComp(
+            elt=ast.Tuple(elts=[node.key, node.value], ctx=ast.Load()),
+            generators=node.generators), env)
+        return dict(pairs)
     if isinstance(node, ast.Call) and isinstance(node.func, ast.Attribute):
         if node.func.attr == 'join' and len(node.args) == 1:
             sep = const_value(node.func.value, env)
